@@ -68,6 +68,16 @@ with open(V + "/seeded/README.md", "w") as f:
             "property's instance list did not include it), C04-R3G2C (k4_birthday added to C04: k9_create alone times out on the\n"
             "64-bit division). C03-R3G1B changes the signature of the static write_str, which the encoder harness replaces by a stub:\n"
             "the harness no longer links and the check answers inconclusive (exit 2) -- not a detection, not a silent pass either.\n"
+            "Round 4 (ids with R4) is different in kind: those four agents were TOLD how the checker works (bounded lengths, one\n"
+            "function at a time, stubs, golden lists) and asked for what it would still miss, so they are not independent of /verif.\n"
+            "Built in because of them: the comparator passed to the word lookup must be the one the language's own flags select\n"
+            "(p6_auto), tokens of up to 290 bytes for the exact/prefix rules (t1_long), by-value struct parameters count as\n"
+            "temporaries (C16), the codec/API harnesses also run under -funsigned-char (C19), the injected NFKD must receive the whole\n"
+            "string (p3_lazy), a long search key (t2_search), C16_CHECK for polyseed_store. Still outside, as the table shows: a\n"
+            "16-bit uint_fast16_t platform (C06-R4H1C: only the x86-64 data model is modelled), misaligned 16/64-bit accesses through\n"
+            "cast pointers on little-endian (C14-R4H4C; the big-endian half of C06-R4H3B is caught by the --big-endian re-run), tokens\n"
+            "longer than 14 bytes under the accent-insensitive rules (C08-R4H2C), and changes that make a harness itself blow up\n"
+            "(C12-R4H1A: a 544-byte copy loop inside the normalisation fast path -> out of memory -> inconclusive).\n"
             "\nBehaviour-preserving refactorings (12 patches from three further sub-agents, `seeded/benign/`) are the opposite test:\n"
             "every relevant quick check must stay quiet on them (results in `seeded/benign/README.md`).\n")
 print("%d seeded, %d caught" % (len(rows), sum(1 for r in rows if r[2])))
